@@ -34,11 +34,85 @@ theorem fold_txid (c : Cfg) (ops : List TxOp) : ∀ st : Engine × Txn, (ops.fol
   | cons op ops ih => intro st; rw [List.foldl_cons, ih, stepTx_txid]
 
 theorem Rec.begin {s : Engine} (h : Rec s) : Rec s.beginWrite.1 :=
-  h.congr rfl rfl rfl rfl (Nat.le_succ _)
+  h.congr rfl rfl rfl rfl (Nat.le_succ _) rfl rfl rfl rfl
 
 /-- an abandoned transaction keeps the recovery invariant -/
 theorem tx_abort_rec (c : Cfg) {s0 : Engine} (h : Rec s0) (ops : List TxOp) : Rec (runTx c s0 ops false) :=
   Rec.fold c ops s0.beginWrite h.begin
+
+/-- staging keeps the checkpoint txid and only moves the txid counter up -/
+theorem stepTx_frame2 (c : Cfg) (st : Engine × Txn) (op : TxOp) :
+    (stepTx c st op).1.ckptTxid = st.1.ckptTxid ∧ st.1.nextTxid ≤ (stepTx c st op).1.nextTxid := by
+  have G : ∀ (s : Engine) l, (s.getOrCreateLabel l).1.ckptTxid = s.ckptTxid ∧ s.nextTxid ≤ (s.getOrCreateLabel l).1.nextTxid := by
+    intro s l; unfold Engine.getOrCreateLabel; split
+    · exact ⟨rfl, Nat.le_refl _⟩
+    · exact ⟨rfl, Nat.le_succ _⟩
+  cases op with
+  | node x lab =>
+    have hi : (internLabel st.1 lab).1.ckptTxid = st.1.ckptTxid ∧ st.1.nextTxid ≤ (internLabel st.1 lab).1.nextTxid := by
+      cases lab with
+      | none => exact ⟨rfl, Nat.le_refl _⟩
+      | some l => exact G st.1 l
+    simp only [stepTx]
+    split <;> exact hi
+  | labelAdd n nm => exact G st.1 nm
+  | labelDel n nm => exact G st.1 nm
+  | edge a nm b => exact G st.1 nm
+  | tombNode n => exact ⟨rfl, Nat.le_refl _⟩
+  | tombEdge a nm b => exact G st.1 nm
+  | nprop n k v => exact ⟨rfl, Nat.le_refl _⟩
+  | npropDel n k => exact ⟨rfl, Nat.le_refl _⟩
+  | eprop a nm b k v => exact G st.1 nm
+  | epropDel a nm b k => exact G st.1 nm
+  | vec n v =>
+    show (st.2.setVector c st.1 n v).1.ckptTxid = _ ∧ _ ≤ (st.2.setVector c st.1 n v).1.nextTxid
+    unfold Txn.setVector
+    split <;> exact ⟨rfl, Nat.le_refl _⟩
+
+theorem fold_frame2 (c : Cfg) (ops : List TxOp) : ∀ st : Engine × Txn,
+    (ops.foldl (stepTx c) st).1.ckptTxid = st.1.ckptTxid ∧ st.1.nextTxid ≤ (ops.foldl (stepTx c) st).1.nextTxid := by
+  induction ops with
+  | nil => intro st; exact ⟨rfl, Nat.le_refl _⟩
+  | cons op ops ih =>
+    intro st
+    obtain ⟨h1, h2⟩ := stepTx_frame2 c st op
+    obtain ⟨h3, h4⟩ := ih (stepTx c st op)
+    exact ⟨h3.trans h1, Nat.le_trans h2 h4⟩
+
+/-- what staging a well-formed transaction establishes about the WriteTxn and the idmap (the
+    preconditions of `Rec.commit`) -/
+theorem stage_facts {s0 g0} (h : Sim s0 g0) (ops : List TxOp)
+    (hwf : txWF g0 ops = true) (hb : s0.interner.length + ops.length ≤ labelMax)
+    (hz : txExtZero ops = false) (hra : txLabelReAdd ops = false) (hed : txEdgeAndEndpointDelete ops = false)
+    (hrp : txDeletesRelWithProps g0 ops = false) :
+    let st := ops.foldl (stepTx Cfg.current) s0.beginWrite
+    (∀ i c, st.2.created[i]? = some c → c.2.2 = st.1.idmap.i2e.length + i) ∧
+    (∀ c ∈ st.2.created, st.1.idmap.lookup c.1 = none) ∧ (st.2.created.map (·.1)).Nodup ∧
+    st.1.idmap.i2l.length = st.1.idmap.i2e.length ∧
+    (∀ p ∈ st.2.addL, p.1 < st.1.idmap.i2l.length + st.2.created.length) ∧
+    (∀ p ∈ st.2.delL, p.1 < st.1.idmap.i2l.length + st.2.created.length) := by
+  have hst := stage_ops Cfg.current h.L ops s0.beginWrite.1 s0.beginWrite.2 g0 (St2.init h.G h.L) hwf hb hz hra hed hrp
+    (by intro p hp; exact absurd hp (List.not_mem_nil))
+    (by intro e he; exact absurd he (List.not_mem_nil))
+  have hid := hst.G.ext.idmap
+  have hv := ext_vals hst.L
+  have hnd := hst.L.extND
+  rw [hv, List.nodup_append] at hnd
+  obtain ⟨hnd1, _, hdisj⟩ := hnd
+  refine ⟨?_, ?_, ?_, ?_, ?_, ?_⟩
+  · intro i c hc; rw [hid, h.L.lenE]; exact hst.L.ids i c hc
+  · intro c hc
+    rw [hid, h.L.e2i c.1]
+    apply lookup_eq_none_of_not_mem_keys
+    intro p hp heq
+    obtain ⟨q, hq, rfl⟩ := List.mem_map.mp hp
+    simp only at heq
+    exact hdisj c.1 (List.mem_reverse.mpr (List.mem_map.mpr ⟨c, hc, rfl⟩)) q.2
+      (List.mem_map.mpr ⟨q, hq, rfl⟩) heq.symm
+  · exact (List.reverse_perm _).nodup_iff.mp hnd1
+  · rw [hid, h.L.lenL, h.L.lenE]
+  · intro p hp; rw [hid, h.L.lenL, ← hst.L.next]; exact (hst.L.addOK p hp).1
+  · intro p hp; rw [hid, h.L.lenL, ← hst.L.next]; exact (hst.L.delOK p hp).1
 
 /-- a committed transaction (current record order) keeps both invariants -/
 theorem tx_commit2 {s0 g0} (h : Sim s0 g0) (hr : Rec s0) (ops : List TxOp)
@@ -47,32 +121,13 @@ theorem tx_commit2 {s0 g0} (h : Sim s0 g0) (hr : Rec s0) (ops : List TxOp)
     (hrp : txDeletesRelWithProps g0 ops = false) :
     Sim (runTx Cfg.current s0 ops true) (g0.apply ops) ∧ Rec (runTx Cfg.current s0 ops true) := by
   refine ⟨tx_commit Cfg.current h ops hwf hb hz hra hed hrp, ?_⟩
-  have hst := stage_ops Cfg.current h.L ops s0.beginWrite.1 s0.beginWrite.2 g0 (St2.init h.G h.L) hwf hb hz hra hed hrp
-    (by intro p hp; exact absurd hp (List.not_mem_nil))
-    (by intro e he; exact absurd he (List.not_mem_nil))
+  obtain ⟨k1, k2, k3, k4, k5, k6⟩ := stage_facts h ops hwf hb hz hra hed hrp
   have hrs : Rec (ops.foldl (stepTx Cfg.current) s0.beginWrite).1 := Rec.fold Cfg.current ops s0.beginWrite hr.begin
   have hmt := fold_mtWF Cfg.current ops s0.beginWrite MemTable.WF.empty
   have htxid : (ops.foldl (stepTx Cfg.current) s0.beginWrite).2.txid = s0.nextTxid := fold_txid Cfg.current ops s0.beginWrite
-  have hid := hst.G.ext.idmap
-  have hv := ext_vals hst.L
-  have hnd := hst.L.extND
-  rw [hv, List.nodup_append] at hnd
-  obtain ⟨hnd1, _, hdisj⟩ := hnd
-  have hcommit := Rec.commit hrs hmt (by rw [htxid]; exact hr.txidPos)
-    (by intro i c hc; rw [hid, h.L.lenE]; exact hst.L.ids i c hc)
-    (by
-      intro c hc
-      rw [hid, h.L.e2i c.1]
-      apply lookup_eq_none_of_not_mem_keys
-      intro p hp heq
-      obtain ⟨q, hq, rfl⟩ := List.mem_map.mp hp
-      simp only at heq
-      exact hdisj c.1 (List.mem_reverse.mpr (List.mem_map.mpr ⟨c, hc, rfl⟩)) q.2
-        (List.mem_map.mpr ⟨q, hq, rfl⟩) heq.symm)
-    ((List.reverse_perm _).nodup_iff.mp hnd1)
-    (by rw [hid, h.L.lenL, h.L.lenE])
-    (by intro p hp; rw [hid, h.L.lenL, ← hst.L.next]; exact (hst.L.addOK p hp).1)
-    (by intro p hp; rw [hid, h.L.lenL, ← hst.L.next]; exact (hst.L.delOK p hp).1)
+  have hfr := fold_frame2 Cfg.current ops s0.beginWrite
+  have hcommit := Rec.commit hrs hmt (by rw [htxid, hfr.1]; exact hr.ckptLt) (by rw [htxid]; exact hfr.2)
+    k1 k2 k3 k4 k5 k6
   unfold runTx
   simp only [if_true]
   rw [commit_ok_eq Cfg.current _ _ _ hcommit.1]
